@@ -192,10 +192,9 @@ def run(ctx: Ctx, env):
     if not rec:
         ctx.ok("O5.input-bounded-recursion", "grammar", "no callback recurses over the parsed structure")
     # regex backtracking shapes
-    fv = rx.flags_value(g.reflags)
     for rule in g.rules:
-        issue = _redos_shape(rx.parse(rule.pattern, fv))
-        ctx.check(issue is None, "O5.regex-backtracking", f"token:{rule.name}", f"token regex has a catastrophic-backtracking shape: {issue}",
+        issue = rx.exponential_ambiguity(rule.pattern, g.reflags)
+        ctx.check(issue is None, "O5.regex-backtracking", f"token:{rule.name}", f"token regex is exponentially ambiguous: {issue}",
                   gm.loc(rule.func) if rule.func else gm.rel)
 
     # ---- O6 the start symbol is always a node ----------------------------------------------------------------
